@@ -6,3 +6,6 @@ import XzVerif.Props.C18
 #print axioms Props.C18.C18_encode
 #print axioms Props.C18.C18_encode_smallest_size
 #print axioms Props.C18.encode_samples_agree
+#print axioms Props.C18.C18_source_encode
+#print axioms Props.C18.C18_source_decode
+#print axioms Props.C18.C18_source_translation_complete
